@@ -100,6 +100,11 @@ M = [
  ('priority-order', 'stage.py', "            if priority:\n                self._initial.move_to_end(var, last=False)", "            if False:\n                self._initial.move_to_end(var, last=False)", []),
  ('setinitial-after-ignored', 'stage.py', "        if self.master is not None and self.master.is_transcribed:\n            self._method.set_initial(self._augmented, self.master._method, self._initial)", "        if self.master is not None and self.master.is_transcribed and False:\n            self._method.set_initial(self._augmented, self.master._method, self._initial)", ['C10']),
  ('free-T-guess-shift', 'direct_method.py', "                stage.set_initial(stage._T, init,priority=True)\n                return stage._T", "                stage.set_initial(stage._T, init*1.5,priority=True)\n                return stage._T", ['C10']),
+ # --- C15
+ ('inf-tscale-global', 'sampling_method.py', "        tscale = (self.control_grid[k + 1] - self.control_grid[k])/self.M\n", "        tscale = self.T / self.N / self.M\n", ['C15']),
+ ('inf-bernstein-matrix', 'sampling_method.py', "[1, 1.0/2, 1.0/6, 0, 0]", "[1, 1.0/2, 1.0/8, 0, 0]", ['C15']),
+ ('inf-coeff-index', 'sampling_method.py', "        coeff = stage._method.poly_coeff[k * self.M + l]\n", "        coeff = stage._method.poly_coeff[k * self.M]\n", ['C15']),
+ ('inf-last-interval-skipped', 'multiple_shooting.py', "                for c, meta, _ in stage._constraints[\"inf\"]:\n                    self.add_inf_constraints(stage, opti, c, k, l, meta)", "                for c, meta, _ in stage._constraints[\"inf\"]:\n                    if k<self.N-1 or self.N==1: self.add_inf_constraints(stage, opti, c, k, l, meta)", ['C15']),
 ]
 
 def main():
